@@ -2,6 +2,9 @@
 #ifndef CVM_STUB_H
 #define CVM_STUB_H
 #include <cvs_base.h>
+#ifdef CVS_SREAL
+#include <sreal.h>
+#endif
 #define COLVARS_OK 0
 #define COLVARS_ERROR 1
 #define COLVARS_NOT_IMPLEMENTED (1<<1)
@@ -15,7 +18,11 @@ extern CVS_MSG_T CVS_MSG;
 extern "C" int g_debug;
 extern "C" double k_floor(double);
 extern "C" double k_sqrt(double);
-extern "C" long long g_step_rel, g_step_abs;
+extern "C" double k_pow(double, double);
+#ifndef CVS_STEP_T
+#define CVS_STEP_T long long
+#endif
+extern "C" CVS_STEP_T g_step_rel, g_step_abs;
 extern "C" int g_sim_continuing, g_sim_running;
 struct colvarproxy_stub_t {
   bool simulation_continuing() const { return g_sim_continuing != 0; }
@@ -26,18 +33,47 @@ struct colvarmodule_main_t { colvarproxy_stub_t *proxy; };
 static colvarproxy_stub_t cvs_proxy;
 static colvarmodule_main_t cvs_main = { &cvs_proxy };
 typedef colvarproxy_stub_t colvarproxy;
+// call ids of uninterpreted functions in symbolic-real mode
+#define CID_FLOOR 1
+#define CID_SQRT 2
+#define CID_POW 3
+#define CID_EXP 4
+#define CID_VALUE 5
+#define CID_ACTUAL_VALUE 6
+#define CID_DIST2 7
+#define CID_DIST2_LGRAD 8
+#define CID_DIST2_RGRAD 9
+#define CID_WRAP 10
+#define CID_CVV_DIST2 11
+#define CID_CVV_DIST2_GRAD 12
+#define CID_INTERPOLATE 13
+#define CID_WIDTH 14
+#define CID_USER 15
 struct colvarmodule {
+#ifdef CVS_SREAL
+  typedef sreal real;
+#else
   typedef double real;
-  typedef long long step_number;
+#endif
+  typedef CVS_STEP_T step_number;   // real: long long; a unit may narrow it (stated as a bound on step numbers)
   static colvarmodule_main_t *main() { return &cvs_main; }
   static step_number step_relative() { return g_step_rel; }
   static step_number step_absolute() { return g_step_abs; }
   static bool debug() { return g_debug != 0; }
   static void log(CVS_MSG_T const &, int = 10) {}
   static int error(CVS_MSG_T const &, int code = COLVARS_ERROR) { g_errors = g_errors + 1; g_error_bits = g_error_bits | (unsigned)code; return code; }
+  static int get_error() { return (int) g_error_bits; }
+#ifdef CVS_SREAL
+  static real pow(real const &x, real const &y) { return sreal_call(CID_POW, x.nid(), y.nid()); }
+  static real floor(real const &x) { return sreal_call(CID_FLOOR, x.nid()); }
+  static real sqrt(real const &x) { return sreal_call(CID_SQRT, x.nid()); }
+  static real exp(real const &x) { return sreal_call(CID_EXP, x.nid()); }
+#else
+  static real pow(real const &x, real const &y) { return k_pow(x, y); }
   static real floor(real const &x) { return k_floor(x); }
   static real sqrt(real const &x) { return k_sqrt(x); }
   static real fabs(real const &x) { return x < 0.0 ? -x : x; }
+#endif
 };
 #define cvm colvarmodule
 #endif
